@@ -14,6 +14,7 @@ import (
 	"io"
 	"log"
 	"net"
+	"os"
 	"sort"
 	"strings"
 	"sync"
@@ -38,10 +39,18 @@ type config struct {
 	Watch      []int   `json:"watch"` // detector i watches archetype Watch[i]
 	IntervalMs int     `json:"pull_interval_ms"`
 	TimeoutMs  int     `json:"rpc_timeout_ms"`
-	Blackhole  bool    `json:"blackhole"`   // after shutdown a listener that accepts and never answers takes the address over
-	NoShutdown bool    `json:"no_shutdown"` // monitor is started first and never shut down (bounds the 2x2 configuration)
-	Ends       [][]int `json:"ends"`        // admissible end kinds per archetype
-	SymDet     bool    `json:"sym_det"`     // detectors are interchangeable: detector i+1 may only start after detector i
+	Blackhole  bool    `json:"blackhole"`     // after shutdown a listener that accepts and never answers takes the address over
+	NoShutdown bool    `json:"no_shutdown"`   // monitor is started first and never shut down (bounds the 2x2 configuration)
+	Ends       [][]int `json:"ends"`          // admissible end kinds per archetype
+	SymDet     bool    `json:"sym_det"`       // detectors are interchangeable: detector i+1 may only start after detector i
+	MonFirst   bool    `json:"monitor_first"` // the monitor is started first (it may still be shut down later)
+	// Relay: every detector reaches the monitor through its own harness-controlled TCP relay that adds LatMs of real
+	// latency to every answer and offers the fault events stall / release / cut (at most Faults stall-or-cut events per order).
+	Relay     bool  `json:"relay"`
+	LatMs     int   `json:"relay_latency_ms"`
+	Faults    int   `json:"fault_budget"`
+	Ks        []int `json:"stalled_probes"`                 // a stall holds the answers until this many consecutive probes have timed out
+	StallOnly []int `json:"stall_only_detectors,omitempty"` // detectors that may be stalled/cut (nil: all)
 }
 
 const (
@@ -62,6 +71,27 @@ func configs(thorough bool) []config {
 		{Name: "1det-1arch-blackhole", NDet: 1, NArch: 1, Watch: []int{0}, IntervalMs: iv, TimeoutMs: 40, Blackhole: true, Ends: [][]int{allEnds}},
 		// two archetypes under one monitor, the detector watches the first one; the second one is a bystander that panics
 		{Name: "1det-2arch", NDet: 1, NArch: 2, Watch: []int{0}, IntervalMs: iv, TimeoutMs: to, Ends: [][]int{allEnds, {endPanic}}, NoShutdown: true},
+	}
+	// temporarily slow / unreachable monitor whose connection survives: RPC timeout < pull interval as in the defaults
+	// (1 s / 2 s) and the raftkvs configurations; answers take 5 ms through the relay
+	riv, rto, rlat := 60, 30, 5
+	cs = append(cs,
+		config{Name: "relay/1det-1arch", NDet: 1, NArch: 1, Watch: []int{0}, IntervalMs: riv, TimeoutMs: rto, Ends: [][]int{allEnds}, NoShutdown: true,
+			Relay: true, LatMs: rlat, Faults: 1, Ks: []int{1, 3}},
+		config{Name: "relay/1det-1arch-shutdown", NDet: 1, NArch: 1, Watch: []int{0}, IntervalMs: riv, TimeoutMs: rto, Ends: [][]int{{endPanic}}, MonFirst: true,
+			Relay: true, LatMs: rlat, Faults: 1, Ks: []int{1}},
+	)
+	if thorough {
+		cs = append(cs,
+			config{Name: "relay/1det-1arch-2faults", NDet: 1, NArch: 1, Watch: []int{0}, IntervalMs: riv, TimeoutMs: rto, Ends: [][]int{{endNormal, endPanic}}, NoShutdown: true,
+				Relay: true, LatMs: rlat, Faults: 2, Ks: []int{1, 2}},
+			config{Name: "relay/1det-1arch-shutdown-full", NDet: 1, NArch: 1, Watch: []int{0}, IntervalMs: riv, TimeoutMs: rto, Ends: [][]int{allEnds}, MonFirst: true,
+				Relay: true, LatMs: rlat, Faults: 1, Ks: []int{1, 3}},
+			config{Name: "relay/2det-1arch-one-stalled", NDet: 2, NArch: 1, Watch: []int{0, 0}, IntervalMs: riv, TimeoutMs: rto, Ends: [][]int{{endNormal, endPanic}}, NoShutdown: true,
+				Relay: true, LatMs: rlat, Faults: 1, Ks: []int{1}, StallOnly: []int{0}},
+			config{Name: "relay/1det-1arch-slow-link", NDet: 1, NArch: 1, Watch: []int{0}, IntervalMs: 100, TimeoutMs: 40, Ends: [][]int{{endNormal, endPanic}}, NoShutdown: true,
+				Relay: true, LatMs: 20, Faults: 1, Ks: []int{1, 2}},
+		)
 	}
 	if thorough {
 		cs = append(cs,
@@ -98,6 +128,8 @@ var (
 	maxWaitPolls  atomic.Int64
 
 	monitorCloseRacePanics atomic.Int64
+	relayStalls            atomic.Int64
+	relayLateReleases      atomic.Int64
 )
 
 func (w *worker) freeAddr() string {
@@ -165,6 +197,9 @@ type detCtl struct {
 	coll, twinColl *resources.FailureDetector
 	res, twin      distsys.ArchetypeResource
 	started        bool
+	relay          *relay
+	stalled        bool // answers of the monitor are being held back by the relay
+	stallSince     time.Time
 	sawMonitorUp   bool // the detector existed while the monitor was listening (it has an established connection)
 }
 
@@ -184,6 +219,7 @@ type world struct {
 	iface    distsys.ArchetypeInterface
 	interval time.Duration
 	history  []string
+	faults   int
 }
 
 type discard struct{ why string }
@@ -263,7 +299,11 @@ func (w *world) stopMonitor() {
 func (w *world) startDetector(i int) {
 	d := w.det[i]
 	mk := func() (*resources.FailureDetector, distsys.ArchetypeResource) {
-		coll := resources.NewFailureDetector(func(tla.Value) string { return w.addr },
+		target := w.addr
+		if d.relay != nil {
+			target = d.relay.addr
+		}
+		coll := resources.NewFailureDetector(func(tla.Value) string { return target },
 			resources.WithFailureDetectorPullInterval(w.interval),
 			resources.WithFailureDetectorTimeout(time.Duration(w.cfg.TimeoutMs)*time.Millisecond))
 		res, err := coll.Index(w.iface, w.arch[w.cfg.Watch[i]].id)
@@ -314,9 +354,50 @@ func (w *world) endArch(j, kind int) {
 	}
 }
 
+// stallDetector: from now on the relay holds the monitor's answers to detector i (the connection stays); the event
+// is over when k consecutive probes of the detector (and of its twin) have been sent and have timed out.
+func (w *world) stallDetector(i int) {
+	d := w.det[i]
+	k := w.cfg.Ks[w.c.Choose(len(w.cfg.Ks), "probes")]
+	w.history[len(w.history)-1] += fmt.Sprintf("(%d)", k)
+	w.faults++
+	relayStalls.Add(1)
+	d.stalled = true
+	d.stallSince = d.relay.stall()
+	last, ok := d.relay.waitRequests(d.stallSince, k, envCap)
+	if !ok {
+		w.discard("no probe reached the relay during a stall")
+	}
+	// the k-th probe times out TimeoutMs after it was sent
+	time.Sleep(time.Until(last.Add(time.Duration(w.cfg.TimeoutMs)*time.Millisecond + 6*time.Millisecond)))
+}
+
+// releaseDetector lets the held (late) answers go: either right away - normally before the detector's next tick, as the
+// timeout is shorter than the interval - or only after one more probe has been sent.
+func (w *world) releaseDetector(i int) {
+	d := w.det[i]
+	late := 0
+	if w.monUp && !w.monDown && d.relay.liveConns() > 0 {
+		late = w.c.Choose(2, "release-after-next-probe")
+	}
+	if late == 1 {
+		w.history[len(w.history)-1] += "(after-next-probe)"
+		if _, ok := d.relay.waitRequests(time.Now(), 1, envCap); !ok {
+			w.discard("no further probe reached the relay before a late release")
+		}
+		relayLateReleases.Add(1)
+	}
+	d.relay.release()
+	d.stalled = false
+}
+
 // required answer of detector i under the history so far: "T" (failed), "F" (alive), "" (the statement does not say)
 func (w *world) required(i int) (want, cause string) {
 	a := w.arch[w.cfg.Watch[i]]
+	if w.det[i].stalled {
+		// the monitor is late / unreachable for this detector: it may report anything, or abort, within its bound
+		return "", ""
+	}
 	switch {
 	case a.state == 2:
 		return "T", "archetype-ended-" + endName[a.endKind]
@@ -331,7 +412,7 @@ func (w *world) required(i int) (want, cause string) {
 		}
 		return "T", "monitor-shutdown/" + conn
 	case a.state == 1 && w.monUp:
-		if w.cfg.TimeoutMs < 1000 {
+		if w.cfg.TimeoutMs < 1000 && !w.cfg.Relay {
 			// with a short RPC timeout a slow answer legitimately counts as a failure (no accuracy guarantee under
 			// timeouts); "alive" is only demanded in the configurations whose timeout (5 s) cannot expire by scheduling noise
 			return "", ""
@@ -373,6 +454,10 @@ func (w *world) read(res distsys.ArchetypeResource) string {
 }
 
 const settlePolls = 20
+
+// fullDeadline: how long a detector may take to settle on the required answer: 2500 intervals of 4 ms, >= 100 intervals
+// for the slowest configuration (100 ms).
+const fullDeadline = 10 * time.Second
 
 // keyOf: "completeness/<cause>" when failed must be reported (reached and kept), "accuracy/<cause>" when alive must be.
 func keyOf(want, cause string) string {
@@ -463,18 +548,18 @@ func (w *world) checkAnswers() {
 	}
 	checksTotal.Add(int64(len(needs)))
 	// completeness: thousands of polling intervals
-	limit := 2500 * w.interval
-	if limit < 10*time.Second {
-		limit = 10 * time.Second
-	}
+	limit := fullDeadline
 	for _, n := range needs {
 		// a key that has already failed 1+5 times is confirmed and reported; later executions that run into the same
 		// key only need to be recognised as duplicates, so they do not wait the full deadline again
 		switch fc := failCount(keyOf(n.want, n.cause)); {
 		case fc >= 6:
-			limit = 150 * w.interval
-		case fc >= 1 && limit > 750*w.interval:
-			limit = 750 * w.interval // the confirmation re-runs of a key that already failed once with the full deadline
+			limit = fullDeadline / 12
+			if limit < 12*w.interval {
+				limit = 12 * w.interval
+			}
+		case fc >= 1:
+			limit = fullDeadline / 3 // the confirmation re-runs of a key that already failed once with the full deadline
 		}
 	}
 	// "within a bounded number of polling intervals and keeps doing so": before the deadline there must be a moment from
@@ -585,6 +670,11 @@ func (w *world) cleanup() {
 		}
 	}
 	dets := w.det
+	for _, d := range dets {
+		if d.relay != nil {
+			d.relay.release()
+		}
+	}
 	mon, hole := w.mon, w.hole
 	w.holeMu.Lock()
 	held := w.held
@@ -597,6 +687,11 @@ func (w *world) cleanup() {
 			}
 		}
 		_ = mon.Close()
+		for _, d := range dets {
+			if d.relay != nil {
+				d.relay.close()
+			}
+		}
 		if hole != nil {
 			hole.Close()
 		}
@@ -634,9 +729,17 @@ func bodyFor(cfgs []config) func(c *explore.Ctx) {
 			w.arch = append(w.arch, newArch(j))
 		}
 		for i := 0; i < cfg.NDet; i++ {
-			w.det = append(w.det, &detCtl{})
+			d := &detCtl{}
+			if cfg.Relay {
+				r, err := newRelay(wk.ip+":0", w.addr, time.Duration(cfg.LatMs)*time.Millisecond)
+				if err != nil {
+					w.discard("relay cannot listen: " + err.Error())
+				}
+				d.relay = r
+			}
+			w.det = append(w.det, d)
 		}
-		if cfg.NoShutdown {
+		if cfg.NoShutdown || cfg.MonFirst {
 			w.startMonitor()
 			w.history = append(w.history, "M+")
 		}
@@ -669,6 +772,27 @@ func bodyFor(cfgs []config) func(c *explore.Ctx) {
 						k := cfg.Ends[j][c.Choose(len(cfg.Ends[j]), "end")]
 						w.history[len(w.history)-1] += endName[k]
 						w.endArch(j, k)
+					}})
+				}
+			}
+			for i := range w.det {
+				i := i
+				d := w.det[i]
+				if d.relay == nil || !d.started {
+					continue
+				}
+				may := cfg.StallOnly == nil
+				for _, x := range cfg.StallOnly {
+					may = may || x == i
+				}
+				if d.stalled {
+					evs = append(evs, ev{fmt.Sprintf("release%d", i), func() { w.releaseDetector(i) }})
+				} else if may && w.faults < cfg.Faults && w.monUp && !w.monDown {
+					evs = append(evs, ev{fmt.Sprintf("stall%d", i), func() { w.stallDetector(i) }})
+					evs = append(evs, ev{fmt.Sprintf("cut%d", i), func() {
+						w.faults++
+						relayCuts.Add(1)
+						d.relay.cut()
 					}})
 				}
 			}
@@ -813,9 +937,10 @@ func TestCheck(t *testing.T) {
 		res := &hres.Result{Property: "C19", Level: "exploration"}
 		res.Assumptions = []string{
 			"monitor shutdown = Monitor.Close() (optionally followed by a silent listener on the same address); process death is not simulated",
-			"completeness deadline = max(10 s, 2500 polling intervals) of real time; an answer that is still wrong then, 6 times in a row, is reported",
+			"completeness deadline = 10 s of real time (2500 intervals of 4 ms; 100 of the slowest configuration); an answer that is still wrong then, 6 times in a row, is reported",
 			"accuracy (alive while running and reachable) is demanded only in configurations with a 5 s RPC timeout; with the 10-40 ms timeouts of the silent-monitor configurations only completeness is demanded",
 			"before the watched archetype has started, and while it runs under a monitor that has not been started yet, the statement requires nothing and nothing is demanded",
+			"relay configurations: the detector reaches the monitor through a harness TCP relay (5-20 ms real latency on answers); stall = answers held until k probes have timed out, release = held answers delivered (before or after the next probe), cut = connections closed; while stalled nothing is demanded, afterwards alive / failed as usual, alive also with the 30 ms RPC timeout",
 			"operation-level orders only: goroutine interleavings inside net/rpc and mainLoop are not controlled",
 		}
 		cfgs := configs(env.Thorough())
@@ -826,7 +951,7 @@ func TestCheck(t *testing.T) {
 			}
 			res.Coverage = map[string]any{"evaluations": 1, "distinct_nontrivial": 0, "rule": "replay", "samples": []any{r}}
 			if r.Delay != nil {
-				_, f := runDelay(*r.Delay, &worker{ip: "127.19.200.1", port: 20000})
+				_, f := runDelay(*r.Delay, &worker{ip: procIP(200), port: 20000})
 				if f != nil {
 					res.Violations = append(res.Violations, *f)
 				}
@@ -835,7 +960,7 @@ func TestCheck(t *testing.T) {
 			if r.Tier != "" {
 				cfgs = configs(r.Tier == "thorough")
 			}
-			v, _, _ := explore.ReplayOnce(bodyFor(cfgs), r.Choices, 0, &worker{ip: "127.19.200.1", port: 20000})
+			v, _, _ := explore.ReplayOnce(bodyFor(cfgs), r.Choices, 0, &worker{ip: procIP(200), port: 20000})
 			if v != nil {
 				res.Violations = append(res.Violations, hres.Viol{Key: v.Key, What: v.What, Replay: r})
 			}
@@ -850,7 +975,7 @@ func TestCheck(t *testing.T) {
 		dch := make(chan dres, len(delayCases))
 		for i, dc := range delayCases {
 			go func(i int, dc delayCase) {
-				wk := &worker{ip: fmt.Sprintf("127.19.201.%d", i+1), port: 20000}
+				wk := &worker{ip: procIP(201 + i), port: 20000}
 				out, f := runDelay(dc, wk)
 				if f != nil { // confirm 5x like every other violation
 					for k := 0; k < 5 && f != nil; k++ {
@@ -873,7 +998,7 @@ func TestCheck(t *testing.T) {
 		}
 		st := explore.Run(bodyFor(cfgs), explore.Options{
 			Budget: 0, Workers: workers, Deadline: env.Deadline.Add(-20 * time.Second), Samples: 4,
-			Setup: func(w int) any { return &worker{ip: fmt.Sprintf("127.19.%d.1", w+1), port: 20000 + (w*97)%1000} },
+			Setup: func(w int) any { return &worker{ip: procIP(w + 1), port: 20000 + (w*97)%1000} },
 		})
 		viol := map[string]hres.Viol{}
 		for _, v := range st.Violations {
@@ -918,9 +1043,9 @@ func TestCheck(t *testing.T) {
 		res.Coverage = map[string]any{
 			"evaluations":         int(st.Executions) + len(delayCases),
 			"distinct_nontrivial": st.Outcomes - boolInt(discarded > 0) + len(delayOut),
-			"rule": "every causally possible order of {monitor start, detector start, archetype start, archetype end in {normal,error,panic}, monitor shutdown} per configuration " +
+			"rule": "every causally possible order of {monitor start, detector start, archetype start, archetype end in {normal,error,panic}, monitor shutdown, and in the relay configurations stall(d,k) / release(d, before|after the next probe) / cut(d) within the fault budget} per configuration " +
 				"(fresh Monitor + NewFailureDetector on loopback per order); after each event every started detector is polled until 21 consecutive ReadValue answers, spread over 5 polling intervals, give the required answer " +
-				"(deadline max(10 s, 2500 intervals)); a never-read twin detector must end in the same state and report; " +
+				"(deadline 10 s); a never-read twin detector must end in the same state and report; " +
 				"distinct = distinct (configuration, event order with end kinds, required/observed final states); plus the delay cases with the interval raised to 1.5 s",
 			"samples":                             samples,
 			"configurations":                      cfgs,
@@ -933,16 +1058,18 @@ func TestCheck(t *testing.T) {
 			"port_rebinds":                        portRetries.Load(),
 			"unconfirmed_candidates":              unconfirmed(viol),
 			"monitor_close_race_panics_recovered": monitorCloseRacePanics.Load(),
-			"detector_checks":                     checksTotal.Load(),
-			"polls":                               pollsTotal.Load(),
-			"max_polls_until_required":            maxWaitPolls.Load(),
-			"max_read_latency_us":                 maxReadMicros.Load(),
-			"delay_cases":                         len(delayCases),
-			"delay_cases_passed":                  len(delayOut),
-			"settle_polls":                        settlePolls,
-			"workers":                             workers,
-			"explore_wall_s":                      st.WallS,
-			"not_covered":                         "goroutine interleavings inside net/rpc; process death of the monitor host; more than 2 detectors/archetypes",
+			"relay": map[string]any{"stalls": relayStalls.Load(), "releases_after_next_probe": relayLateReleases.Load(), "cuts": relayCuts.Load(),
+				"requests_forwarded": relayRequests.Load(), "answers_forwarded": relayAnswers.Load(), "answers_released_late": relayHeld.Load()},
+			"detector_checks":          checksTotal.Load(),
+			"polls":                    pollsTotal.Load(),
+			"max_polls_until_required": maxWaitPolls.Load(),
+			"max_read_latency_us":      maxReadMicros.Load(),
+			"delay_cases":              len(delayCases),
+			"delay_cases_passed":       len(delayOut),
+			"settle_polls":             settlePolls,
+			"workers":                  workers,
+			"explore_wall_s":           st.WallS,
+			"not_covered":              "goroutine interleavings inside net/rpc; process death of the monitor host; more than 2 detectors/archetypes",
 		}
 		return res
 	})
@@ -966,3 +1093,7 @@ func unconfirmed(confirmed map[string]hres.Viol) map[string][]string {
 	}
 	return out
 }
+
+// procIP: a loopback address private to this worker of this process (concurrent runs of the check - e.g. a mutant sweep
+// beside a normal run - must never meet on an address).
+func procIP(w int) string { return fmt.Sprintf("127.19.%d.%d", w, 1+os.Getpid()%250) }
